@@ -55,6 +55,11 @@ class Register:
         self._alias_from = alias_from
         self._alias_slice = alias_slice
         if alias_slice is not None:
+            for bound in (alias_slice.start, alias_slice.stop, alias_slice.step):
+                if bound is not None and not isinstance(bound, (int, AnnotatedValue)):
+                    raise JaqalError(
+                        f"Cannot slice register {alias_from.name} with {bound}: not an integer."
+                    )
             if (
                 isinstance(alias_slice.start, AnnotatedValue)
                 or isinstance(alias_slice.stop, AnnotatedValue)
@@ -88,11 +93,6 @@ class Register:
                         f"Cannot slice parameter {alias_from.name} of non-register kind {alias_from.kind}."
                     )
             else:
-                for bound in (alias_slice.start, alias_slice.stop, alias_slice.step):
-                    if bound is not None and not isinstance(bound, int):
-                        raise JaqalError(
-                            f"Cannot slice register {alias_from.name} with {bound}: not an integer."
-                        )
                 if alias_slice.step is not None and alias_slice.step == 0:
                     raise JaqalError("Slice step cannot be zero.")
                 if alias_slice.start is not None and alias_slice.start < 0:
